@@ -1934,9 +1934,12 @@ static int _GD_AddAlias(DIRFILE *restrict D, const char *restrict parent,
     GD_SET_RETURN_ERROR(D, GD_E_ACCMODE, 0, NULL, 0, NULL);
   else if (fragment_index < 0 || fragment_index >= D->n_fragment)
     GD_SET_RETURN_ERROR(D, GD_E_BAD_INDEX, 0, NULL, fragment_index, NULL);
-  else if (D->fragment[fragment_index].protection & GD_PROTECT_FORMAT)
+  else if (parent == NULL &&
+      (D->fragment[fragment_index].protection & GD_PROTECT_FORMAT))
+  {
     GD_SET_RETURN_ERROR(D, GD_E_PROTECTED, GD_E_PROTECTED_FORMAT, NULL, 0,
         D->fragment[fragment_index].cname);
+  }
 
   if (parent != NULL) {
     /* look for parent */
@@ -1947,6 +1950,13 @@ static int _GD_AddAlias(DIRFILE *restrict D, const char *restrict parent,
       goto add_alias_error;
     }
     fragment_index = P->fragment_index;
+
+    /* a metafield lives in its parent's fragment: that's the one to check */
+    if (D->fragment[fragment_index].protection & GD_PROTECT_FORMAT) {
+      _GD_SetError(D, GD_E_PROTECTED, GD_E_PROTECTED_FORMAT, NULL, 0,
+          D->fragment[fragment_index].cname);
+      goto add_alias_error;
+    }
 
     /* make sure it's not a meta field already or an alias */
     if (P->e->n_meta == -1 || P->field_type == GD_ALIAS_ENTRY) {
